@@ -190,6 +190,26 @@ def check(prog, run):
         relts = rets[-1].value.elts
         # A and C are the last two list-valued returns (SSI: (A, C); SSI_fast: (Obs, A, C, ...); multi: (Obs_all, A, C))
         names = [e.id if isinstance(e, ast.Name) else None for e in relts]
+
+        def alias_root(nm, depth=0):
+            """the name a returned name stands for when it is bound once, to another name (also position-wise in `a, b = (x, y)`: what is
+            left of a helper written out at its call)"""
+            if nm is None or depth > 3:
+                return nm
+            defs = []
+            for a_ in ast.walk(fi.node):
+                if isinstance(a_, ast.Assign) and len(a_.targets) == 1:
+                    t_, v_ = a_.targets[0], a_.value
+                    if isinstance(t_, ast.Name) and t_.id == nm:
+                        defs.append(v_)
+                    elif isinstance(t_, (ast.Tuple, ast.List)) and isinstance(v_, (ast.Tuple, ast.List)) and len(t_.elts) == len(v_.elts):
+                        for x_, y_ in zip(t_.elts, v_.elts):
+                            if isinstance(x_, ast.Name) and x_.id == nm:
+                                defs.append(y_)
+            if len(defs) == 1 and isinstance(defs[0], ast.Name) and not astq.list_elements(fi, nm):
+                return alias_root(defs[0].id, depth + 1)
+            return nm
+        names = [alias_root(n_) for n_ in names]
         apps = {n: astq.list_elements(fi, n) for n in names if n}
         lists = [n for n in names if apps.get(n)]
         if len(lists) < 2:
